@@ -13,7 +13,10 @@ use std::sync::atomic::{AtomicBool, AtomicUsize, Ordering};
 use std::sync::Mutex;
 use std::time::{Duration, Instant};
 
-pub const VERIF_DIR: &str = "/verif";
+/// root of the verification tree (MCV_verif_dir(), set by ./check to its own directory; default /verif)
+pub fn verif_dir() -> String {
+    std::env::var("MCV_VERIF_DIR").unwrap_or_else(|_| "/verif".to_string())
+}
 pub const REPO_RULES: &str = "/repo/Rules";
 pub const SESSION_STACK: usize = 8 * 1024 * 1024;
 
@@ -94,7 +97,7 @@ static SCRATCH: Mutex<Option<String>> = Mutex::new(None);
 pub fn scratch_dir() -> String {
     let mut g = SCRATCH.lock().unwrap();
     if g.is_none() {
-        let base = std::env::var("MCV_SCRATCH_BASE").unwrap_or_else(|_| format!("{}/harness/target/scratch", VERIF_DIR));
+        let base = std::env::var("MCV_SCRATCH_BASE").unwrap_or_else(|_| format!("{}/harness/target/scratch", verif_dir()));
         let d = format!("{}/{}", base, std::process::id());
         let _ = std::fs::remove_dir_all(&d);
         std::fs::create_dir_all(format!("{}/home/.config", d)).expect("create scratch");
@@ -422,7 +425,7 @@ pub struct KnownFinding {
 }
 
 pub fn load_known_findings() -> Vec<KnownFinding> {
-    let path = format!("{}/known_findings.json", VERIF_DIR);
+    let path = format!("{}/known_findings.json", verif_dir());
     let Ok(text) = std::fs::read_to_string(&path) else { return vec![] };
     let v: Value = serde_json::from_str(&text).expect("known_findings.json must be valid JSON");
     let mut out = vec![];
@@ -489,6 +492,10 @@ pub trait Property: Sync {
     /// is a process death (stack overflow, abort) a violation of this property (C08) or a rejected case
     fn abort_is_violation(&self) -> bool {
         false
+    }
+    /// explicitly enumerated cases (exhaustive sweeps); evaluated through the same oracle as stream "explicit"
+    fn explicit_cases(&self, _tier: Tier) -> Vec<Self::Case> {
+        vec![]
     }
     /// a known input class that explains why the process died (abort / hang) on this case
     fn death_trigger(&self, _case: &Self::Case) -> Option<String> {
@@ -658,7 +665,7 @@ pub fn sanitize(sig: &str) -> String {
 }
 
 pub fn write_replay(prop: &str, sig: &str, detail: &str, case_json: &Value, found_dir: bool) -> String {
-    let dir = if found_dir { format!("{}/replays/{}/found", VERIF_DIR, prop) } else { format!("{}/replays/{}", VERIF_DIR, prop) };
+    let dir = if found_dir { format!("{}/replays/{}/found", verif_dir(), prop) } else { format!("{}/replays/{}", verif_dir(), prop) };
     let _ = std::fs::create_dir_all(&dir);
     let path = format!("{}/{}.json", dir, sanitize(sig));
     let v = json!({"property": prop, "signature": sig, "detail": detail, "case": case_json});
@@ -722,19 +729,28 @@ pub fn worker_main<P: Property>(p: &P, cfg: &RunCfg, stream: &str, start: usize,
     let skip: HashSet<String> = std::env::var("MCV_SKIP_SIGS").unwrap_or_default().split('\u{1f}').filter(|s| !s.is_empty()).map(|s| s.to_string()).collect();
     let sample_every = std::env::var("MCV_SAMPLE_EVERY").ok().and_then(|s| s.parse::<usize>().ok()).unwrap_or(1000).max(1);
     let mut reported: BTreeSet<String> = BTreeSet::new();
+    let explicit: Option<Vec<P::Case>> = if stream == "explicit" { Some(p.explicit_cases(cfg.tier)) } else { None };
     let per_session = if p.session_per_case() || p.own_sessions() { 1 } else { 48 };
     let mut i = start;
     while i < end {
         let chunk_end = (i + per_session).min(end);
-        // generate
-        let mut trees: Vec<(usize, Box<dyn ValueTree<Value = P::Case>>)> = vec![];
+        // generate (or take from the enumerated list)
+        let mut trees: Vec<Option<Box<dyn ValueTree<Value = P::Case>>>> = vec![];
+        let mut cases: Vec<(usize, P::Case)> = vec![];
         for k in i..chunk_end {
+            if let Some(list) = &explicit {
+                if let Some(c) = list.get(k) {
+                    cases.push((k, c.clone()));
+                    trees.push(None);
+                }
+                continue;
+            }
             let mut runner = runner_for(cfg.seed, p.id(), stream, k as u64);
             if let Ok(t) = strategy.new_tree(&mut runner) {
-                trees.push((k, Box::new(t)));
+                cases.push((k, t.current()));
+                trees.push(Some(Box::new(t)));
             }
         }
-        let cases: Vec<(usize, P::Case)> = trees.iter().map(|(k, t)| (*k, t.current())).collect();
         let mut outcomes: Vec<Option<Outcome>> = vec![None; cases.len()];
         let announce = |k: usize| {
             let mut o = out.lock();
@@ -804,7 +820,10 @@ pub fn worker_main<P: Property>(p: &P, cfg: &RunCfg, stream: &str, start: usize,
                 }
                 // persist the unshrunk case first (the shrinker might crash the process)
                 let path = write_replay(p.id(), &sig, &detail, &p.to_json(c), true);
-                let (best, best_detail, _iters) = shrink(p, &mut trees[k].1, &sig);
+                let (best, best_detail, _iters) = match trees[k].as_mut() {
+                    Some(t) => shrink(p, t, &sig),
+                    None => (c.clone(), String::new(), 0),
+                };
                 let d = if best_detail.is_empty() { detail.clone() } else { best_detail };
                 let path2 = write_replay(p.id(), &sig, &d, &p.to_json(&best), true);
                 debug_assert_eq!(path, path2);
@@ -892,7 +911,7 @@ fn run_child(prop: &str, cfg: &RunCfg, stream: &str, start: usize, end: usize, s
     let status = child.wait();
     done.store(true, Ordering::SeqCst);
     let err_tail = err_thread.join().unwrap_or_default();
-    let _ = std::fs::remove_dir_all(format!("{}/harness/target/scratch/{}", VERIF_DIR, pid));
+    let _ = std::fs::remove_dir_all(format!("{}/harness/target/scratch/{}", verif_dir(), pid));
     if let (Some(s), Ok(st)) = (stats, &status) {
         if st.success() {
             return ChildEnd::Done(s);
@@ -967,7 +986,7 @@ pub fn run_generated<P: Property>(p: &P, cfg: &RunCfg, n_cases: usize, stream: &
                             let at = at.unwrap_or(start).clamp(start, end - 1);
                             // the case that was running
                             let mut runner = runner_for(cfg.seed, p.id(), stream, at as u64);
-                            let case = strategy.new_tree(&mut runner).ok().map(|t| t.current());
+                            let case = if stream == "explicit" { p.explicit_cases(cfg.tier).get(at).cloned() } else { strategy.new_tree(&mut runner).ok().map(|t| t.current()) };
                             let case_json = case.as_ref().map(|c| p.to_json(c)).unwrap_or(Value::Null);
                             let mut sig = abort_signature(&how);
                             let trigger = case.as_ref().and_then(|c| p.death_trigger(c));
@@ -1059,7 +1078,7 @@ pub fn replay_json_main<P: Property>(p: &P, file: &str) -> i32 {
 /// Replay every file in replays/<ID>/*.json (not the `found/` subdirectory).
 /// Returns a list of (file, signature, reproduced?).
 pub fn run_replays<P: Property>(p: &P, known: &[KnownFinding], stats: &mut Stats) -> Vec<(String, String, bool)> {
-    let dir = format!("{}/replays/{}", VERIF_DIR, p.id());
+    let dir = format!("{}/replays/{}", verif_dir(), p.id());
     let mut results = vec![];
     let Ok(rd) = std::fs::read_dir(&dir) else { return results };
     let mut files: Vec<_> = rd.filter_map(|e| e.ok()).map(|e| e.path()).filter(|p| p.extension().map(|e| e == "json").unwrap_or(false)).collect();
@@ -1158,15 +1177,19 @@ pub fn finish<P: Property>(p: &P, cfg: &RunCfg, stats: &Stats, known: &[KnownFin
         "violations": stats.violations.len(),
         "violation_list": stats.violations.iter().map(|v| json!({"signature": v.sig, "detail": v.detail.chars().take(1500).collect::<String>(), "replay": v.replay_path})).collect::<Vec<_>>(),
     });
-    let _ = std::fs::create_dir_all(format!("{}/evidence", VERIF_DIR));
-    std::fs::write(format!("{}/evidence/{}.json", VERIF_DIR, p.id()), serde_json::to_string_pretty(&ev).unwrap()).expect("write evidence");
+    let _ = std::fs::create_dir_all(format!("{}/evidence", verif_dir()));
+    std::fs::write(format!("{}/evidence/{}.json", verif_dir(), p.id()), serde_json::to_string_pretty(&ev).unwrap()).expect("write evidence");
 
     // KNOWN-FINDING lines: one per listed known entry of this property (listed => printed)
     for k in known.iter().filter(|k| k.property == p.id() && k.status == "known") {
         let hits = stats.known_hits.get(&k.signature).copied().unwrap_or(0);
         println!("KNOWN-FINDING: property={} {} [signature={} hits_this_run={}]", p.id(), k.what, k.signature, hits);
     }
+    let mut printed: BTreeSet<String> = BTreeSet::new();
     for v in &stats.violations {
+        if !printed.insert(v.sig.clone()) {
+            continue;
+        }
         println!("VIOLATION property={} replay={}", p.id(), v.replay_path);
         println!("  signature: {}", v.sig);
         println!("  detail: {}", v.detail.chars().take(1200).collect::<String>().replace('\n', "\n    "));
